@@ -51,6 +51,10 @@ type Op struct {
 
 // TreeCase is a history for one tree (and its clones).
 type TreeCase struct {
+	// Mag selects the magnitude of the comparator's non-zero results: 0 gives
+	// -1/+1, 1 gives the key difference (any non-zero int), 2 gives +-MaxInt32.
+	// The documentation only promises the sign to matter.
+	Mag  int   `json:"mag,omitempty"`
 	Beta int   `json:"beta"`
 	Init []int `json:"init,omitempty"` // base key numbers for New; tags are -(i+1)
 	Ops  []Op  `json:"ops"`
@@ -134,7 +138,26 @@ type treeRun struct {
 	succUp2                                        bool
 }
 
-func (r *treeRun) compare(a, b Key) int { r.cmps++; return cmpKey(a, b) }
+func (r *treeRun) compare(a, b Key) int {
+	r.cmps++
+	c := cmpKey(a, b)
+	switch r.c.Mag % 3 {
+	case 1:
+		d := (a.K - b.K) >> (keyShift - 3)
+		if d == 0 {
+			d = int64(c)
+		}
+		if d > 1<<30 {
+			d = 1 << 30
+		} else if d < -(1 << 30) {
+			d = -(1 << 30)
+		}
+		return int(d)
+	case 2:
+		return c * (1<<31 - 1)
+	}
+	return c
+}
 
 func (r *treeRun) cur() *inst { return r.insts[r.act] }
 
